@@ -89,20 +89,36 @@ pub fn canon(o: &Outcome<(Vec<u8>, usize)>) -> String {
     }
 }
 
-/// What the reader MODEL is expected to answer for these bytes.  The models have single-step granularity;
-/// the real LZMA readers decode a whole read call's worth of symbols after the source has run dry (the range
-/// decoder then supplies zeros and remembers the error), so on a corrupt stream they may report the "dist
-/// overflow" of a garbage symbol (`Other`) where a finer read schedule reports `UnexpectedEof` first.  When the
-/// 4096-byte schedule says `Other`, the 1-byte schedule decides what is expected.
+/// What the reader MODEL is expected to answer for these bytes: exactly what the real reader answers with 4096-byte
+/// reads.  (Until the LZMA reader model followed the order of events at the end of `LZMADecoder::decode` - no final
+/// normalisation before a "dist overflow" is returned - a finer read schedule was consulted here when the coarse one said
+/// `Other`; that rule is gone: the error class of the readers does not depend on the buffer sizes, see `class_sched`.)
 pub fn expected(fmt: &str, multi: bool, bytes: &[u8], cap: usize) -> String {
-    let o = real_decode(fmt, multi, bytes, cap);
-    if let Outcome::Err(std::io::ErrorKind::Other, m) = &o {
-        if !m.contains("output-cap-exceeded") {
-            let fine = if fmt == "xz" { xz_decompress(bytes, multi, &[1], cap) } else { lzip_decompress(bytes, &[1], cap) };
-            return canon(&fine);
+    canon(&real_decode(fmt, multi, bytes, cap))
+}
+
+/// The error CLASS must not depend on the sizes of the caller's buffers (C07 for corrupt input): decode with 1-byte
+/// reads as well and compare the class with the 4096-byte run.  `capped` on either side is not compared (the cap is
+/// checked per call).  Returns a description if the two schedules disagree.
+pub fn class_sched(fmt: &str, multi: bool, bytes: &[u8], cap: usize) -> Option<String> {
+    let coarse = canon(&real_decode(fmt, multi, bytes, cap));
+    let fine = canon(&if fmt == "xz" { xz_decompress(bytes, multi, &[1], cap) } else { lzip_decompress(bytes, &[1], cap) });
+    if coarse == "capped" || fine == "capped" || coarse == fine {
+        None
+    } else {
+        Some(format!("4096-byte reads: {coarse}; 1-byte reads: {fine}"))
+    }
+}
+
+/// model request + expected answer for one input, and the schedule check of the error class (inputs up to 64 KiB)
+pub fn model_case(rep: &mut Report, fmt: &str, multi: bool, bytes: &[u8], cap: usize) {
+    rep.model(model_req(fmt, multi, bytes, cap), expected(fmt, multi, bytes, cap));
+    if bytes.len() <= 65536 {
+        rep.count("class-sched.compared");
+        if let Some(d) = class_sched(fmt, multi, bytes, cap) {
+            rep.fail(&format!("error-class-depends-on-read-sizes:{fmt}"), &format!("the reader's answer depends on the sizes of the caller's buffers ({d})"), json!({"format": fmt, "multi": multi, "cap": cap, "input_hex": if bytes.len() <= 2000 { hex(bytes) } else { format!("fnv:{}", fnv(bytes)) }}));
         }
     }
-    canon(&o)
 }
 
 pub fn model_req(fmt: &str, multi: bool, bytes: &[u8], cap: usize) -> String {
@@ -119,7 +135,7 @@ fn check_mutant(rep: &mut Report, f: &ValidFile, mutant: &[u8], what: &str, mode
     let o = real_decode(f.fmt, false, mutant, cap);
     rep.count(&format!("outcome.{}", o.class()));
     if model {
-        rep.model(model_req(f.fmt, false, mutant, cap), expected(f.fmt, false, mutant, cap));
+        model_case(rep, f.fmt, false, mutant, cap);
     }
     let detail = || json!({"file": f.name, "format": f.fmt, "mutation": what, "file_len": f.bytes.len(), "mutant_hex": if mutant.len() <= 400 { hex(mutant) } else { format!("fnv:{}", fnv(mutant)) }, "original_hex": if f.bytes.len() <= 400 { hex(&f.bytes) } else { "-".into() }});
     match &o {
@@ -445,6 +461,40 @@ pub fn run_c04(rep: &mut Report, rng: &mut Rng, thorough: bool) {
             check_mutant(rep, f, &m, &format!("bitflip@{bit}"), true);
             rep.evaluations += 1;
         }
+        // a corrupt symbol that ends exactly at the end of the input: flips in the LZMA payload of an LZIP member that
+        // end in "dist overflow" (`Other`), then the cuts of that mutant around the first one that is `Other`.  Short cuts are
+        // `UnexpectedEof`; from the
+        // cut that holds the last byte the failing symbol needs the answer is `Other` - although the normalisation
+        // that would follow asks for a byte that is not there (`LZMADecoder::decode` returns the error of `repeat`
+        // without normalising; the reader model must do the same, `Lzma.rawFinish`).
+        if f.fmt == "lzip" && f.bytes.len() > 26 && f.bytes.len() <= 4096 {
+            let want = if thorough { 40 } else { 10 };
+            let mut found = 0;
+            let lo = 6 * 8;
+            let hi = (f.bytes.len() - 20) * 8;
+            for _ in 0..want * 6 {
+                if found >= want || hi <= lo {
+                    break;
+                }
+                let bit = lo + rng.below((hi - lo) as u64) as usize;
+                let mut m = f.bytes.clone();
+                m[bit / 8] ^= 1 << (bit % 8);
+                if !matches!(real_decode(f.fmt, false, &m, f.data.len() * 2 + 4096), Outcome::Err(std::io::ErrorKind::Other, _)) {
+                    continue;
+                }
+                found += 1;
+                rep.count("flip-then-cut.mutants");
+                // the first cut that is `Other`: the model is asked about the 32 cuts before it (all `UnexpectedEof`
+                // unless something else is wrong) and the 24 behind it (cuts far away all behave alike)
+                let first_other = (6..m.len()).find(|&k| matches!(real_decode(f.fmt, false, &m[..k], f.data.len() * 2 + 4096), Outcome::Err(std::io::ErrorKind::Other, _)));
+                if let Some(k0) = first_other {
+                    for k in k0.saturating_sub(32).max(6)..(k0 + 25).min(m.len()) {
+                        check_mutant(rep, f, &m[..k], &format!("bitflip@{bit}+cut@{k}"), true);
+                        rep.evaluations += 1;
+                    }
+                }
+            }
+        }
         // byte substitutions, deletions, insertions, duplications, swaps, truncations
         let n_other = if thorough { 600 } else { 120 };
         for _ in 0..n_other {
@@ -628,7 +678,7 @@ pub fn run_c04(rep: &mut Report, rng: &mut Rng, thorough: bool) {
         }
         for fmt in ["xz", "lzip"] {
             let o = real_decode(fmt, false, &g, 1 << 16);
-            rep.model(model_req(fmt, false, &g, 1 << 16), expected(fmt, false, &g, 1 << 16));
+            model_case(rep, fmt, false, &g, 1 << 16);
             if let Outcome::Ok((out, _)) = &o {
                 rep.fail(&format!("garbage-accepted:{fmt}"), &format!("non-{fmt} input of {} bytes decoded successfully to {} bytes", g.len(), out.len()), json!({"input_hex": hex(&g), "case": i}));
             }
@@ -718,7 +768,7 @@ pub fn run_c12(rep: &mut Report, rng: &mut Rng, thorough: bool) {
         }
         if is_xz {
             let o = real_decode("xz", true, &bytes, cap);
-            rep.model(model_req("xz", true, &bytes, cap), expected("xz", true, &bytes, cap));
+            model_case(rep, "xz", true, &bytes, cap);
             match (&o, legal) {
                 (Outcome::Ok((out, used)), true) => {
                     if out != &data {
@@ -734,7 +784,7 @@ pub fn run_c12(rep: &mut Report, rng: &mut Rng, thorough: bool) {
             }
             // multi = false: stops after the first stream, having consumed exactly its bytes
             let o1 = real_decode("xz", false, &bytes, cap);
-            rep.model(model_req("xz", false, &bytes, cap), expected("xz", false, &bytes, cap));
+            model_case(rep, "xz", false, &bytes, cap);
             match &o1 {
                 Outcome::Ok((out, used)) => {
                     let f0 = xz.iter().find(|f| f.name == names[0]).unwrap();
@@ -746,7 +796,7 @@ pub fn run_c12(rep: &mut Report, rng: &mut Rng, thorough: bool) {
             }
         } else {
             let o = real_decode("lzip", false, &bytes, cap);
-            rep.model(model_req("lzip", false, &bytes, cap), expected("lzip", false, &bytes, cap));
+            model_case(rep, "lzip", false, &bytes, cap);
             match &o {
                 Outcome::Ok((out, used)) => {
                     if out != &data {
